@@ -34,6 +34,7 @@ ALL_KINDS = (RET, FAIL, ERROR, SKIP, XFAIL, UXSUCCESS, MULTI, KBI, SYSEXIT)
 # the stage returns normally, with a value (a test written "return total", a generator test ...)
 RETVAL = "retval"
 BASE_KINDS = (KBI, SYSEXIT)
+NON_EXCEPTION_KINDS = ()  # further kinds (of a check's own) that do not derive from Exception: unittest's decorators let them pass
 # what each kind contributes to the list of raised exceptions (MULTI flattened)
 FLATTEN = {
     FAIL: (FAIL,),
